@@ -541,6 +541,8 @@ theorem cmTail_tot {reorg sc ln : Nat} (hall : ∀ x ∈ headers, x.tdOk = true)
   unfold cmTail
   split
   · exact Tot.pure trivial
+  split
+  · exact Tot.pure trivial
   rename_i hend
   split
   · rename_i hs0
